@@ -1,5 +1,5 @@
 """C08 — formatter (narrow): every constructible node variant has an emitter arm, emitters read every semantic field of their node,
-operator literals are accepted by (only) the parser leaf of the same variant, text mode is forced and unconditional terminators stay unconditional."""
+operator literals are accepted by (only) the parser leaf of the same variant AND reachable there (rules/c08_reach.py), text mode is forced and unconditional terminators stay unconditional."""
 import re
 from collections import defaultdict
 from lib.facts import find, walk, is_node, path_of, render, render_stmt, render_pat, last_seg
@@ -8,7 +8,8 @@ from lib import fxn as X
 TECHNIQUE = ("exhaustiveness of the formatter's variant matches against the variants the parser constructs (MIR aggregates); field-use completeness (K6) of "
              "every emitter against the node struct definitions; table agreement between the literals the formatter emits for operator variants and the "
              "literals the parser leaf of that variant accepts (injectivity); structural rule that no emitter chooses a non-blank literal by inspecting the "
-             "rendered text of a child")
+             "rendered text of a child; a concrete simulation of the parser's combinator expressions (ordered choice, cut, look-ahead; lib/pegsim.py) on the finite set of texts "
+             "the operator emitters can write around opaque operands (variant-specialised emitter templates, lib/emitspec.py), with the precedence-level chain taken from the MIR (rules/c02.py)")
 EXPLANATION = (
     "Decides necessary structure of C08 only: (R1) every variant of a syntax-node enum that the parser constructs has an emitter arm in the formatter method "
     "that matches on that enum (no wildcard swallowing it); (R2) every emitter reads every semantic field of the node struct it is given (source ranges "
@@ -20,6 +21,7 @@ EXPLANATION = (
     " (R8, empty nodes) a node whose list field is empty is written with text one of the parser's empty productions accepts; (R12) separators the emitters put between list elements are accepted by the list parser's separator language in that context (a tight comma where the parser needs `, ` or whitespace where it forbids it is reported)."
     " (R13) tight productions: an emitter writes white space between two fields only where a parser step between them (or the neighbouring field's own parser) can consume white space; and the emitter of a node all of whose parsers are white-space free (a token: number, complex literal, grammar identifier) writes no blank, neither literally nor through a helper emitter called with a constant argument."
     " (R15) distinct variants of a node enum are never rendered by identical code (one or-pattern arm, or arm bodies equal up to binder names): identical rendering makes them indistinguishable in the formatted text."
+    " (R16) reachable spelling: for every variant->literal table of the formatter over a field-less node enum (the 8 formula-operator classes, the op-assign operators, both range-operator positions) and every prefix/postfix/circumfix variant of the formula operand type, the text the enclosing node emitter writes (literal plus the separators of the wrapper emitters, operands as one identifier-like sentinel) is evaluated on the combinator source of the parser functions that build the node - ordered `alt`, `cut`, `is_not`, white-space leaves, the whole precedence descent - and must be consumed completely, without hard failure, building exactly the given variants (a listed tag shadowed by an earlier alternative or by an operator of a tighter level, a token glued to an identifier operand, a missing blank are reported); this decides a structural fact about (emitter text, grammar) for sentinel operands, not the behaviour of the parser on real programs."
 )
 OP_ENUMS = ["AddSubOp", "MulDivOp", "PowerOp", "VecOp", "ComparisonOp", "LogicOp", "TableOp", "SetOp", "OpAssignOp", "RangeOp"]
 
@@ -70,6 +72,11 @@ def _run(F, rep, tier):
             pc = path_of(c[1]) or ""
             if pc.startswith("Self::") or pc.startswith("Formatter::"):
                 st_.append(pc.split("::")[-1])
+        # calls written inside the arguments of format!(..) are token text in the expanded tree
+        for mc in find(by_name[x]["body"], "macro"):
+            for raw in mc[2:4]:
+                if isinstance(raw, str):
+                    st_.extend(re.findall(r"\bself\s*\.\s*(\w+)\s*\(", raw))
     rep.floor("C08-R2", "emitters reachable from format()", len(reach), 100)
     # R1 / R2
     n1 = n2 = 0
@@ -157,6 +164,14 @@ def _run(F, rep, tier):
         if lits:
             accepted[next(iter(vars_))] |= lits
     rep.floor("C08-R3", "operator variants with a parser leaf", len(accepted), 30)
+    str_consts = {}
+    for it in items:
+        if it["k"] in ("const", "static", "iconst") and is_node(it.get("val")):
+            v = it["val"]
+            while is_node(v) and v[0] in ("ref", "paren"):
+                v = v[2] if v[0] == "ref" else v[1]
+            if is_node(v) and v[0] == "str":
+                str_consts.setdefault(it["name"], v[1])
     n3 = 0
     for it in fm:
         for m in find(it["body"], "match"):
@@ -168,6 +183,9 @@ def _run(F, rep, tier):
                         continue
                     key = (mm.group(1), mm.group(2))
                     lits = [s[1] for s in find(arm[2], "str")]
+                    if not lits:
+                        # a named string constant (`LogicOp::Xor => Self::XOR_SYMBOL.to_string()`) is its text
+                        lits = [str_consts[last_seg(x[1])] for x in find(arm[2], "path") if last_seg(x[1]) in str_consts]
                     if len(lits) != 1 or key not in accepted:
                         continue
                     lit = lits[0]
@@ -317,6 +335,9 @@ def _run(F, rep, tier):
     rep.floor("C08-R11", "emitters scanned for HTML on the text path", n11, 100)
     from rules import c08_grammar
     c08_grammar.run(F, rep, fm, reach)
+    # ---- R16: the spelling written for a token variant is reachable in the grammar (ordered choice, precedence descent, cut)
+    from rules import c08_reach
+    c08_reach.run(F, rep, fm, reach, enums, structs)
     # ---- R10: based-literal prefixes: the emitter of a RealNumber variant writes a prefix its parser leaf accepts
     rep.rule("C08-R10", "based literals: the prefix the formatter writes for RealNumber::{Hexadecimal,Octal,Binary,Decimal} is a tag the parser leaf building that variant accepts")
     from lib.emit import parse_format, split_format
@@ -351,3 +372,4 @@ def _run(F, rep, tier):
                           sample={"variant": mm.group(1), "prefix": prefix, "leaf_accepts": sorted(leaf_tags[mm.group(1)])})
     rep.floor("C08-R10", "based-literal emitter arms compared", n10, 4)
     rep.analysed = {"formatter_methods": len(fm), "enum_matches": n1, "struct_emitters": n2, "operator_literals": n3, "child_text_inspections": n5}
+    rep.analysed.update({"reach_" + k: v for k, v in getattr(rep, "analysed_reach", {}).items()})
